@@ -76,7 +76,7 @@ func genC18(t *rapid.T) c18Case {
 		case 0, 1, 2, 3, 4:
 			a.Kind = "validate-file"
 			if rapid.IntRange(0, 5).Draw(t, "ontoInput") == 0 {
-				a.Onto = pick(t, []string{"data", "profile", "symlink-data", "hardlink-data"}, "onto")
+				a.Onto = pick(t, []string{"data", "profile", "symlink-data", "hardlink-data", "dev-full"}, "onto")
 			}
 		case 5:
 			a.Kind = "validate-stdout"
@@ -210,8 +210,16 @@ func decideC18(c c18Case) ev.Verdict {
 					if os.Link(dfiles[a.D], alias) == nil {
 						target = alias
 					}
+				case "dev-full":
+					// a device that accepts the open and refuses every write (no space left): the report cannot be
+					// written, which is a failure like any other
+					if st, err := os.Stat("/dev/full"); err == nil && st.Mode()&os.ModeDevice != 0 {
+						target = "/dev/full"
+					}
 				}
-				if target != out {
+				if target == "/dev/full" {
+					v.Labels = append(v.Labels, "output-path-is-a-full-device")
+				} else if target != out {
 					before = readState(target)
 					v.Labels = append(v.Labels, "output-path-is-an-input:"+a.Onto)
 				}
@@ -222,8 +230,19 @@ func decideC18(c c18Case) ev.Verdict {
 			if err != nil {
 				return ev.Verdict{Discard: true, Detail: err.Error(), Obs: map[string]int{"helper_failures": 1}}
 			}
+			if target == "/dev/full" {
+				if exit == 0 {
+					return ev.Violation("c18-exit0-on-failure", "step %d: the output device refuses every write (no space left), yet acv validate exits 0 (stdout %d bytes)", i, len(so))
+				}
+				if looksLikeReport(so) && lib.Err != nil {
+					return ev.Violation("c18-report-on-failure", "step %d: failure, yet stdout holds a report", i)
+				}
+				v.Labels = append(v.Labels, "validate-file:write-refused")
+				lastOK = false
+				continue
+			}
 			after := readState(target)
-			if target != out {
+			if target != out && target != "/dev/full" {
 				// put the inputs back for the steps that follow
 				_ = os.Remove(filepath.Join(dir, "alias.jsonld"))
 				_ = os.Remove(dfiles[a.D])
